@@ -3,6 +3,7 @@ from __future__ import annotations
 
 import itertools
 import os
+import time
 
 from vf import common as C
 from vf import xh
@@ -275,7 +276,7 @@ def template_body_pipeline(rep: C.Report, pid: str = "C04") -> None:
     from vf import astpaths as AP
     from vf import passes as PS
 
-    ob = rep.add(C.Ob("Ob6 includable-part pipeline: comments go before noinclude handling, paired before unclosed, no early exit skips a pass", "E2 z3 (regex overlap, guard constraints) + AST order", ["core.py:Wtp._template_to_body"], "all strings (no length bound) for the overlap and early-exit queries"))
+    ob = rep.add(C.Ob("Ob6 includable-part pipeline: comments and noinclude elements are removed by one left-to-right scan (or by passes whose order cannot show), paired before unclosed, no early exit skips a pass", "E2 z3 (regex overlap, guard constraints) + AST order", ["core.py:Wtp._template_to_body"], "all strings (no length bound) for the overlap and early-exit queries"))
     try:
         tree = ast.parse(open(os.path.join(C.SRC, "core.py")).read())
         fns = [f for q, f in AP.functions(tree) if q[-1] == "_template_to_body"]
@@ -284,34 +285,114 @@ def template_body_pipeline(rep: C.Report, pid: str = "C04") -> None:
             return
         fn = fns[0]
         ps = PS.passes(fn)
+        import re as _re
+
+        def role(sample: str, want: str, flags_any: bool = True):
+            """the first pass which, applied on its own, turns `sample` into `want` (a pass may hold several roles: a single
+            left-to-right scan `comment|noinclude` is one pass with all of them)"""
+            for p_ in ps:
+                if p_.call != "sub":
+                    continue
+                try:
+                    if _re.sub(p_.pattern, "", sample, flags=p_.flags) == want:
+                        return p_
+                except _re.error:
+                    continue
+            return None
+
         named = {
-            # the first pass that removes closed comments (it may or may not also handle an unclosed one)
-            "comment_closed": PS.find_pass(ps, ["<!--x-->", "a<!-- b -->c"], ["<noinclude>x</noinclude>", "x"]),
-            "noinclude_paired": PS.find_pass(ps, ["<noinclude>x</noinclude>", "<NOINCLUDE>x</noinclude >"], ["<noinclude>x", "<onlyinclude>x</onlyinclude>"]),
-            "noinclude_open": PS.find_pass(ps, ["<noinclude>x"], ["<!--x", "<onlyinclude>x"]),
+            "comment_closed": role("a<!-- b -->c", "ac"),
+            "noinclude_paired": role("a<noinclude>x</noinclude>c", "ac"),
+            "noinclude_open": role("a<noinclude>x", "a"),
         }
-        if named["noinclude_open"] is named["noinclude_paired"]:
-            named["noinclude_open"] = next((p for p in ps if p is not named["noinclude_paired"] and p.matches("<noinclude>x") and not p.matches("<!--x")), None)
         missing = [k for k, v in named.items() if v is None]
         if missing:
             ob.verdict, ob.detail = C.NOT_ENCODABLE, f"passes not identified: {missing} (patterns found: {[p.pattern[:30] for p in ps]})"
             return
         problems = []
-        for a, b, witness, want in [
-            ("comment_closed", "noinclude_paired", "X<!-- <noinclude> -->Y<!-- </noinclude> -->Z", "XYZ"),
-            ("comment_closed", "noinclude_open", "X<!-- put docs inside <noinclude> -->Y", "XY"),
-            ("noinclude_paired", "noinclude_open", "X<noinclude>a</noinclude>Y<noinclude>b</noinclude>Z", "XYZ"),
-        ]:
-            r, wit = PS.order_matters(named[a], named[b])
-            ob.queries += 1
-            ob.paths += 1
+        # MediaWiki scans left to right: the construct that opens first extends to its own terminator.  Two separate
+        # passes can only approximate that; z3 decides for each direction whether a text exists on which the order shows
+        # (a full match of the later pass's pattern that contains a match of the earlier one's).  One combined pass
+        # (alternation in a single re.sub) is a left-to-right scan by construction.
+        W_COMMENT_FIRST = ("X<!-- <noinclude> -->Y<!-- </noinclude> -->Z", "XYZ")  # wrong when noinclude handling runs first
+        W_NOINC_FIRST = ("X<noinclude>a<!--b</noinclude>Y-->Z", "XY-->Z")  # wrong when comment removal runs first
+        for a, b in [("comment_closed", "noinclude_paired"), ("comment_closed", "noinclude_open")]:
+            pa, pb = named[a], named[b]
             ob.conditions += 1
-            ordered = named[a].line < named[b].line
-            ob.samples.append({"precedence": f"{a} before {b}", "order_matters(z3)": r, "overlap_witness": wit, "ast_order_ok": ordered})
-            if ordered or r == "unsat":
+            ob.paths += 1
+            if pa is pb:
+                ob.confirmed_conditions += 1
+                ob.samples.append({"pair": f"{a} / {b}", "structure": f"one left-to-right scan (core.py:{pa.line})"})
+                continue
+            first, second = (pa, pb) if pa.line < pb.line else (pb, pa)
+            r, wit = PS.order_matters(second, first)
+            ob.queries += 1
+            ob.samples.append({"pair": f"{a} / {b}", "structure": f"separate passes, core.py:{first.line} runs before core.py:{second.line}", "order_shows(z3)": r, "overlap_witness": wit})
+            if r == "unsat":
                 ob.confirmed_conditions += 1
             else:
-                problems.append((f"{b} runs before {a}", witness, want))
+                w = W_NOINC_FIRST if first is pa else W_COMMENT_FIRST
+                problems.append((f"{'comment removal' if first is pa else 'noinclude handling'} runs as a separate pass before {'noinclude handling' if first is pa else 'comment removal'} (z3: a construct of the later pass can contain an opener of the earlier one: {wit!r})", w[0], w[1]))
+        # what the removing passes delete, as regular languages (unbounded): every comment and every noinclude element,
+        # closed or running to the end of the text, is a full match of a removing pass; and every full match of a
+        # removing pass starts with a comment opener or a noinclude open tag (nothing else is ever deleted by them)
+        import z3
+
+        from vf import resym as R
+
+        removing = []
+        for p_ in named.values():
+            if p_ not in removing:
+                removing.append(p_)
+        try:
+            U = z3.Union(*[R.fullmatch_lang(p_.pattern, p_.flags) for p_ in removing]) if len(removing) > 1 else R.fullmatch_lang(removing[0].pattern, removing[0].flags)
+            ws = R.to_z3(r"\s*")
+            ic = lambda lit: R.to_z3(_re.escape(lit), _re.I)  # noqa: E731
+            no_end = lambda lit: z3.Complement(z3.Concat(R.ANYSTAR, z3.Re(lit), R.ANYSTAR))  # noqa: E731
+            comment = z3.Concat(z3.Re("<!--"), R.ANYSTAR)  # closed (ends in -->) or running to the end
+            opentag = z3.Concat(ic("<noinclude"), ws, z3.Re(">"))
+            closetag = z3.Concat(ic("</noinclude"), ws, z3.Re(">"))
+            noinc = z3.Concat(opentag, z3.Union(z3.Concat(R.ANYSTAR, closetag), z3.Intersect(R.ANYSTAR, z3.Complement(z3.Concat(R.ANYSTAR, closetag, R.ANYSTAR)))))
+            x = z3.String("x")
+            for label, lhs, rhs in [
+                ("every comment (closed or unclosed) is a full match of a removing pass", z3.Concat(z3.Re("<!--"), z3.Union(z3.Concat(no_end("-->"), z3.Re("-->")), no_end("-->"))), U),
+                ("every noinclude element (any case, blanks before '>', closed or unclosed) is a full match of a removing pass", noinc, U),
+                ("a removing pass only deletes spans that start with '<!--' or a noinclude open tag", U, z3.Union(comment, z3.Concat(opentag, R.ANYSTAR))),
+            ]:
+                sol = z3.Solver()
+                sol.set("timeout", 60000)
+                sol.add(z3.InRe(x, lhs), z3.Not(z3.InRe(x, rhs)))
+                t0 = time.time()
+                r = str(sol.check())
+                ob.solver_s += time.time() - t0
+                ob.queries += 1
+                ob.paths += 1
+                ob.conditions += 1
+                if r == "unsat":
+                    ob.confirmed_conditions += 1
+                    ob.samples.append({"lemma": label, "z3": "unsat (inclusion holds, no length bound)"})
+                elif r == "sat":
+                    wit = R.z3str_to_py(sol.model().eval(x, model_completion=True).as_string())
+                    ob.samples.append({"lemma": label, "z3": "sat", "witness": wit})
+                    problems.append((f"language lemma fails: {label} (witness {wit!r})", "X" + wit, None))
+                else:
+                    ob.detail += f"lemma '{label[:40]}': solver {r}; "
+        except R.Unsupported as e:
+            ob.detail += f"language lemmas not encodable: {e}; "
+        # paired before unclosed (or both in one alternative)
+        pa, pb = named["noinclude_paired"], named["noinclude_open"]
+        ob.conditions += 1
+        ob.paths += 1
+        if pa is pb or pa.line < pb.line:
+            ob.confirmed_conditions += 1
+            ob.samples.append({"pair": "noinclude_paired / noinclude_open", "structure": "same pass" if pa is pb else "paired first"})
+        else:
+            r, wit = PS.order_matters(pa, pb)
+            ob.queries += 1
+            if r == "unsat":
+                ob.confirmed_conditions += 1
+            else:
+                problems.append(("unclosed-noinclude handling runs before the paired one", "X<noinclude>a</noinclude>Y<noinclude>b</noinclude>Z", "XYZ"))
         exits = PS.early_exits(fn, fn.args.args[2].arg if len(fn.args.args) > 2 else "text", ps)
         for line, status, wit in exits:
             ob.queries += 1
